@@ -75,6 +75,42 @@ class Decoy:
         self.host, self.rv, self.callees, self.fresh = host, rv, callees, fresh
 
 
+def _orders_by_content(fx, fn, node, t):
+    """a sort hides where a digest was pushed only if it orders the digests by their content (or shuffles them): `sort()`,
+    `sort_unstable()`, `shuffle(..)`, or a `sort_by_key` / `sort_by` whose key is the string itself / whose comparator compares the two
+    strings. A key such as the length leaves equal-length digests (all of them) in insertion order, decoys last."""
+    nm = t.get("name")
+    if nm in ("sort", "sort_unstable", "shuffle", "partial_shuffle"):
+        return True
+    if len(node.kids) < 2:
+        return False
+    cl = peel(node.kids[1])
+    if cl.kind != "agg" or cl.d["agg"].get("kind") != "closure" or cl.d["agg"].get("def") not in fx.fns:
+        return False
+    C = fx.view(cl.d["agg"]["def"])
+    rv = peel(vals(C).return_value())
+    ident = ("clone", "to_owned", "to_string", "as_str", "deref", "as_ref", "borrow", "as_bytes", "into", "from")
+    if nm in ("sort_by_key", "sort_unstable_by_key", "sort_by_cached_key"):
+        g = 0
+        while rv.kind == "call" and rv.d["term"].get("name") in ident and rv.kids and g < 6:
+            rv = peel(rv.kids[0])
+            g += 1
+        return rv.kind == "param" and rv.d["idx"] == 2
+    if nm in ("sort_by", "sort_unstable_by"):
+        if rv.kind == "call" and rv.d["term"].get("name") in ("cmp", "partial_cmp") and len(rv.kids) == 2:
+            ps = []
+            for k in rv.kids:
+                k = peel(k)
+                g = 0
+                while k.kind == "call" and k.d["term"].get("name") in ident and k.kids and g < 6:
+                    k = peel(k.kids[0])
+                    g += 1
+                ps.append(k.d.get("idx") if k.kind == "param" else None)
+            return sorted(x for x in ps if x is not None) == [2, 3]
+        return False
+    return False
+
+
 class Issuer:
     def __init__(self, ctx, fx, rule):
         self.fx = fx
@@ -143,7 +179,7 @@ class Issuer:
         for b2, t2 in fn.calls():
             if t2.get("name") == "push" and receiver_local(fn, b2, 0) == self.sd_vec:
                 self.sd_pushes.append((b2, fv.call_node(b2)))
-            if t2.get("name") in SORTS and receiver_local(fn, b2, 0) == self.sd_vec:
+            if t2.get("name") in SORTS and receiver_local(fn, b2, 0) == self.sd_vec and _orders_by_content(fx, fn, fv.call_node(b2), t2):
                 self.sd_sorts.append(b2)
         # the decoy flag
         self.flag_edges = []
